@@ -143,6 +143,11 @@ def p1_pairing(F, r):
         raise AnchorError(f"only {n} functions with job removals found")
     # the `empty routes only` row is checked, not trusted
     rer = SC + "::remove_empty_routes"
+    if rer not in F.fns:
+        # the helper was inlined: the predicate is the closure handed to keep_routes in InsertionContext::restore
+        rer = "vrp_core::construction::heuristics::context::InsertionContext::restore"
+        if rer not in F.fns:
+            raise AnchorError(rer)
     ok = any(t["callee"] == TOUR + "has_jobs" for g in F.family(rer) for _, t in mir.calls(F.fns[g]))
     if ok:
         r.ok("remove_empty_routes predicate", "keeps routes with tour.has_jobs()")
@@ -311,13 +316,26 @@ def o1_subjob_order(F, r):
             r.fail("analyze_insertion_in_route: start index", "the leg search no longer starts at the index carried by the running SingleContext (init.index)", F.loc(ar, t["ln"]))
 
 
+def _empty_route_drops(F, fn):
+    """blocks of fn that drop the empty tours: remove_empty_routes(), or keep_routes(<closure testing tour.has_jobs()>)"""
+    out = []
+    for bi, t in mir.calls(fn):
+        if t["callee"].endswith("SolutionContext::remove_empty_routes"):
+            out.append(bi)
+        elif t["callee"].endswith("SolutionContext::keep_routes") and (
+                mir.closure_arg_calls(F, fn, t, lambda c: c == TOUR + "has_jobs")
+                or any(tt["callee"] == TOUR + "has_jobs" for g in F.fns if g.startswith(fn["id"] + "::{closure#") for _, tt in mir.calls(F.fns[g]))):
+            out.append(bi)
+    return out
+
+
 def p5_empty_tours_removed_last(F, r):
     """in every function that drops empty tours, no state acceptance (which may strip marker jobs and leave a tour empty) can follow the drop"""
     n = 0
     for fid, fn in sorted(F.fns.items()):
         if "::promoted[" in fid:
             continue
-        rem = [bi for bi, t in mir.calls(fn) if t["callee"].endswith("SolutionContext::remove_empty_routes")]
+        rem = _empty_route_drops(F, fn)
         if not rem:
             continue
         n += 1
@@ -335,11 +353,11 @@ def p5_empty_tours_removed_last(F, r):
             else:
                 r.ok(f"{name}: accept_solution_state -> remove_empty_routes", "every path to the return drops empty tours afterwards")
     if n < 1:
-        raise AnchorError("no caller of SolutionContext::remove_empty_routes")
+        raise AnchorError("no function drops empty tours (remove_empty_routes / keep_routes(has_jobs))")
     restore = "vrp_core::construction::heuristics::context::InsertionContext::restore"
     if restore not in F.fns:
         raise AnchorError(restore)
-    if not any(t["callee"].endswith("SolutionContext::remove_empty_routes") for _, t in mir.calls(F.fns[restore])):
+    if not _empty_route_drops(F, F.fns[restore]):
         r.fail("InsertionContext::restore: remove_empty_routes", "restore no longer drops empty tours", F.loc(restore))
     else:
         r.ok("InsertionContext::restore: remove_empty_routes", "present")
